@@ -53,6 +53,11 @@ def run(ctx: RuleContext):
     ctx.sub(check_pipeline, ctx)
     ctx.sub(check_all_returns_instrumented, ctx, "C10.7")
     ctx.sub(check_ipython_same_class, ctx)
+    # C10.8: in IPython the transformer is applied exactly once per cell: choosing a typechecker removes every
+    # JaxtypingTransformer installed before (front-end clause of C11.5)
+    from .c11 import check_front_ends
+
+    ctx.reuse("C10.8", check_front_ends, ctx)
 
 
 def transformer(ctx):
@@ -221,6 +226,26 @@ def check_write_set(ctx, r):
         has = any(isinstance(n, ast.Call) and isinstance(n.func, ast.Attribute) and n.func.attr == how for n in walk_scope(f.node))
         if not has:
             ctx.bad("C10.2", f, f.node, f"{name} no longer inserts anything", construct=f"{name}: no {how}")
+            continue
+        if name == "visit_Module":
+            continue
+        # "one decorator on EVERY def / class": the insertion is unconditional -- it lies on every path to every
+        # normal return (a skip for defs that 'already carry a jaxtyped decorator', for private names, ... leaves
+        # those definitions unchecked)
+        g = NoReturn(m).cfg(f)
+        ins = [n for n in g.live_nodes() if any(isinstance(c_.func, ast.Attribute) and c_.func.attr == how and "decorator_list" in norm(c_.func.value) for c_ in node_calls(n))]
+        if not ins:
+            continue
+        dom = g.dominators()
+        for rn in [n for n in g.live_nodes() if n.kind == "return"]:
+            if not any(i_.id in dom[rn.id] for i_ in ins):
+                cond = [g.nodes[i] for i in dom[ins[0].id] if g.nodes[i].kind == "test"]
+                ctx.bad("C10.2", f, cond[-1].ast if cond else rn.ast, f"{name} can return without having inserted the decorator"
+                        + (f" (the insertion is conditional on `{short(cond[-1].ast, 60)}`)" if cond else "") + ": such definitions stay un-instrumented",
+                        construct=f"{name}: decorator insertion is conditional")
+                break
+        else:
+            ctx.ok("C10.2", f.qualname, "the decorator insertion lies on every path to every return")
 
 
 def _check_fresh_decorator_arg(ctx, f, arg, call):
